@@ -40,17 +40,38 @@ func evalPaths(fn *ssa.Function, leaf guardLeaf, names []string, visit func(assi
 			case *ssa.Panic:
 				return true
 			case *ssa.If:
-				cond := x.Cond
-				neg := false
-				for {
-					if inner, isNot := isNot(cond); isNot {
-						cond, neg = inner, !neg
-						continue
+				// evaluate the condition: leaves, negations, constants and the φ of a short-circuit
+				// expression (resolved by the predecessor the path came through)
+				var eval func(v ssa.Value, depth int) (val bool, known bool)
+				eval = func(v ssa.Value, depth int) (bool, bool) {
+					if depth > 6 {
+						return false, false
 					}
-					break
+					if inner, isN := isNot(v); isN {
+						x, ok := eval(inner, depth+1)
+						return !x, ok
+					}
+					if c, isC := v.(*ssa.Const); isC && c.Value != nil {
+						return c.Value.String() == "true", true
+					}
+					if nm, ok := leaf(v); ok {
+						return assign[nm], true
+					}
+					if phi, isPhi := v.(*ssa.Phi); isPhi {
+						pb := phi.Block()
+						for i := len(path) - 1; i > 0; i-- {
+							if path[i] == pb {
+								for k, pred := range pb.Preds {
+									if pred == path[i-1] {
+										return eval(phi.Edges[k], depth+1)
+									}
+								}
+							}
+						}
+					}
+					return false, false
 				}
-				if nm, ok := leaf(cond); ok {
-					v := assign[nm] != neg
+				if v, known := eval(x.Cond, 0); known {
 					if v {
 						return rec(b.Succs[0], path, onPath)
 					}
@@ -439,16 +460,22 @@ func ruleQueryPaths(r *Report) {
 	h.Check(p2 && !anyReach(okSucc, isCall("(*column.Txn).rollback")), "nil-edge", r.P.InstrPos(cb), "nil ⇒ commit, never rollback", "on the path where the transaction body returned nil, commit is not called on every path or rollback can be reached")
 	p3, _ := mustPassToReturn(errSucc, 0, isCall("(*column.txnPool).release"))
 	p4, _ := mustPassToReturn(okSucc, 0, isCall("(*column.txnPool).release"))
+	for _, d := range callsTo(q, true, "(*column.txnPool).release") {
+		if _, isDefer := d.(*ssa.Defer); isDefer && d.Block().Dominates(errSucc) && d.Block().Dominates(okSucc) {
+			p3, p4 = true, true // registered before the branch: runs on every exit
+		}
+	}
 	h.Check(p3 && p4, "release", r.P.InstrPos(cb), "transaction released on both edges", "the transaction is not released to the pool on every path")
 	// the error edge returns the callback's error
 	retOK := true
 	for _, ret := range returnsOf(q) {
+		vals := cellStoresBefore(ret)
 		if errSucc.Dominates(ret.Block()) {
-			if len(ret.Results) != 1 || !sameExpr(throughCell(ret.Results[0]), cb) {
+			if len(vals) != 1 || !sameExpr(throughCell(vals[0]), cb) {
 				retOK = false
 			}
 		} else if okSucc.Dominates(ret.Block()) {
-			if len(ret.Results) != 1 || !isConstNil(ret.Results[0]) {
+			if len(vals) != 1 || !isConstNil(vals[0]) {
 				retOK = false
 			}
 		}
